@@ -322,7 +322,7 @@ fn gen_statements(fields: &Fields, encoding: Encoding) -> syn::Result<proc_macro
             // An unknown enum variant is replaced by the field's nil value. The item has
             // only been consumed partially at that point (e.g. the bare index of an
             // `index_only` enum is already gone), so skipping restarts at its beginning.
-            quote! {{
+            let body = quote! {
                 #tag
                 let __q777 = __d777.position();
                 match #decode_fn(__d777, __ctx777) {
@@ -330,7 +330,22 @@ fn gen_statements(fields: &Fields, encoding: Encoding) -> syn::Result<proc_macro
                     #unknown_var_err
                     Err(e) => return Err(e)
                 }
-            }}
+            };
+
+            // A tagged field may find a bare null in its place, written as a gap filler
+            // by a version of the type that does not know the field (yet). Treat it as
+            // an absent value, like any other field would.
+            if field.attrs.tag().is_some() {
+                quote! {{
+                    if minicbor::data::Type::Null == __d777.datatype()? {
+                        __d777.skip()?
+                    } else {
+                        #body
+                    }
+                }}
+            } else {
+                quote! {{ #body }}
+            }
     })
     .collect::<Vec<_>>();
 
